@@ -9,13 +9,38 @@ use serde_json::{json, Value};
 use std::time::Duration;
 use vh::alloc;
 use vh::hostile::{expires_in, wrap_fdt};
-use vh::mwriter::{MonBuilder, Script};
+use flute::receiver::writer::{ObjectMetadata, ObjectWriter, ObjectWriterBuilder, ObjectWriterBuilderResult};
 use vh::report::*;
 use vh::util::{self, Rng};
 use vh::wire::{self, Fti};
 
 #[global_allocator]
 static GLOBAL: alloc::Counting = alloc::Counting;
+
+/// A writer that records nothing: the heap counters must show the receiver, not the monitor.
+struct NullBuilder;
+struct NullWriter;
+impl ObjectWriterBuilder for NullBuilder {
+    fn new_object_writer(&self, _e: &UDPEndpoint, _tsi: &u64, _toi: &u128, _m: &ObjectMetadata, _now: std::time::SystemTime) -> ObjectWriterBuilderResult {
+        ObjectWriterBuilderResult::StoreObject(Box::new(NullWriter))
+    }
+    fn update_cache_control(&self, _e: &UDPEndpoint, _tsi: &u64, _toi: &u128, _m: &ObjectMetadata, _now: std::time::SystemTime) {}
+    fn fdt_received(&self, _e: &UDPEndpoint, _tsi: &u64, _xml: &str, _exp: std::time::SystemTime, _m: &ObjectMetadata, _d: Duration, _now: std::time::SystemTime, _ext: Option<std::time::SystemTime>) {}
+}
+impl ObjectWriter for NullWriter {
+    fn open(&self, _now: std::time::SystemTime) -> flute::error::Result<()> {
+        Ok(())
+    }
+    fn write(&self, _sbn: u32, _data: &[u8], _now: std::time::SystemTime) -> flute::error::Result<()> {
+        Ok(())
+    }
+    fn complete(&self, _now: std::time::SystemTime) {}
+    fn error(&self, _now: std::time::SystemTime) {}
+    fn interrupted(&self, _now: std::time::SystemTime) {}
+    fn enable_md5_check(&self) -> bool {
+        false
+    }
+}
 
 #[derive(Clone, Debug)]
 struct Scn {
@@ -114,7 +139,7 @@ fn child(args: &[String]) -> ! {
         viol.push(json!({"clause": clause, "detail": detail, "extra": extra}));
     };
     let baseline = alloc::live();
-    let (builder, _log) = MonBuilder::new(Script { keep_data: 0, ..Default::default() });
+    let builder = std::rc::Rc::new(NullBuilder);
     let mut rx = MultiReceiver::new(builder.clone(), Some(cfg), false);
     let mut p = Probe { max_cached: 0, max_cached_pkts: 0, max_blocks_bytes: 0, max_err_list: 0, max_fdt_current: 0, max_fdt_receivers: 0, max_objects: 0, max_sessions: 0 };
     let psize = 1000usize;
@@ -122,12 +147,15 @@ fn child(args: &[String]) -> ! {
     let mut pushes = 0u64;
     let mut live_marks: Vec<(u64, isize)> = vec![];
     let mut block_bytes = 0usize;
+    // the slope test needs traffic that exceeds the configured bound several times over
+    let mut saturated = false;
     let r = util::guarded(|| {
         match s.kind {
             // one object, FDT-only FTI, FDT never sent: packets are cached
             "cache_one_object" | "object_packets_after_fdt_only_fti" => {
                 let total = (cache / psize + 8) * 12 * s.scale.min(4);
                 let total = total.min(if cache > (1 << 20) { 40_000 } else { 400_000 });
+                saturated = total * psize > 3 * cache;
                 for k in 0..total {
                     let toi = if s.kind == "cache_one_object" { 5 } else { 5 + (k / (cache / psize + 50)) as u128 };
                     let pk = obj_pkt(1, toi, 0, None, (k / 1000) as u32, (k % 1000) as u32, 0, &payload, false);
@@ -173,6 +201,7 @@ fn child(args: &[String]) -> ! {
                 }
                 let sym = rng.bytes(e);
                 let nb = if fec == 6 { nblocks.min(255) } else { nblocks };
+                saturated = nb * block_bytes > 3 * cache && nb / 10 * block_bytes > cache + 2 * block_bytes;
                 for sbn in 1..nb {
                     for esi in 0..k {
                         let pk = obj_pkt(1, 9, fec, Some(&fti), sbn as u32, esi as u32, k as u16, &sym, false);
@@ -237,6 +266,7 @@ fn child(args: &[String]) -> ! {
             }
             // many complete FDT instances
             _ => {
+                saturated = true;
                 let n = 60 * s.scale;
                 for id in 0..n {
                     let xml = format!("<?xml version=\"1.0\"?><FDT-Instance xmlns=\"urn:IETF:metadata:2005:FLUTE:FDT\" Expires=\"{}\"><File TOI=\"{}\" Content-Location=\"file:///m/c{}\" Content-Length=\"3\"/></FDT-Instance>", expires_in(3600), 10 + id, id);
@@ -271,10 +301,11 @@ fn child(args: &[String]) -> ! {
     }
     // ---- slope: ten times more traffic of the same kind must not cost more heap
     //      (scenarios whose entity count grows with traffic are bounded by the timeout instead)
-    if matches!(s.kind, "cache_one_object" | "blocks_waiting" | "fdt_current") && live_marks.len() >= 2 {
+    if saturated && matches!(s.kind, "cache_one_object" | "blocks_waiting" | "fdt_current") && live_marks.len() >= 2 {
         let (n1, l1) = live_marks[0];
         let (n2, l2) = live_marks[live_marks.len() - 1];
-        let allowed = l1.max(0) + (cache as isize) + 2 * block_bytes as isize + (256 << 10);
+        // both marks are beyond the point where the bound is reached: a plateau is expected
+        let allowed = l1.max(0) + l1.max(0) / 4 + 2 * block_bytes as isize + (256 << 10);
         if l2 > allowed && n2 > n1 {
             add("heap_grows_with_traffic", format!("live heap of the receiver: {} bytes after {} packets, {} bytes after {} packets (allowed {}): grows with traffic, not bounded by the configuration", l1, n1, l2, n2, allowed), json!({"marks": live_marks}));
         }
